@@ -659,6 +659,8 @@ def re_function(name):
             return sym_search(ip, comp, args[1], name, None, None, node)
         if name == 'sub':
             return re_sub(ip, pattern, args[1], args[2], kwargs, node)
+        if name == 'split':
+            return re_split(ip, pattern, args[1], kwargs, node)
         raise Unsupported(f"re.{name} on symbolic text")
     return f
 
@@ -677,6 +679,15 @@ def re_sub(ip, pattern, repl, subject, kwargs, node):
         lit = ''.join(chr(av) for op, av in items)
         from .models import z3_replace_all
         return wrap(z3_replace_all(s, z3.StringVal(lit), z3.StringVal(repl), ip))
+    # a character class (possibly starred) deleted from a text that provably contains none of its characters
+    cls1, starred1 = _single_class(pat)
+    if cls1 is not None and repl == '' and ip.ctx.term_in_star(s, z3.Star(z3.Diff(ALLCHAR, cls1))):
+        return subject
+    if cls1 is not None and repl == '' and all(z3.is_string_value(p) or ip.ctx.term_in_star(p, z3.Star(z3.Diff(ALLCHAR, cls1)))
+                                                 for p in _flat_parts(s)):
+        from .api import zstr
+        from .models import concat_strs
+        return concat_strs(ip, [comp.sub('', zstr(p)) if z3.is_string_value(p) else SV(p) for p in _flat_parts(s)])
     # single char class, deletion: result is uninterpreted with facts
     if len(items) == 1 and not pat.has_group(items) and not pat.has_assert(items):
         cls = pat.lang_items(items)
@@ -693,6 +704,60 @@ def re_sub(ip, pattern, repl, subject, kwargs, node):
             ip.hooks.setdefault(('re_del',), []).append((pat, s, r))
             return SV(r)
     raise Unsupported(f"re.sub({pat.src!r}) on symbolic text")
+
+
+def _flat_parts(t):
+    t = z3.simplify(t)
+    parts = []
+
+    def flat(x):
+        if z3.is_app(x) and x.decl().kind() == z3.Z3_OP_SEQ_CONCAT:
+            for i in range(x.num_args()):
+                flat(x.arg(i))
+        else:
+            parts.append(x)
+    flat(t)
+    return parts
+
+
+def _single_class(pat):
+    """RegLan of the character class if the pattern is one character class (optionally starred), else None"""
+    items = list(pat.tree)
+    if len(items) != 1:
+        return None, False
+    op, av = items[0]
+    starred = False
+    if op in (sre_c.MAX_REPEAT, sre_c.MIN_REPEAT) and len(av[2]) == 1:
+        starred = True
+        op, av = av[2][0]
+    if op in (sre_c.IN, sre_c.LITERAL, sre_c.ANY, sre_c.NOT_LITERAL):
+        return pat.lang_item(op, av), starred
+    return None, False
+
+
+def re_split(ip, pattern, subject, kwargs, node):
+    """re.split on a single character class: structural -- literal parts are split natively, symbolic parts must be
+    free of separators (proved from their language facts)"""
+    from .api import zstr
+    from .models import concat_strs
+    comp = pattern if isinstance(pattern, _re.Pattern) else _re.compile(pattern, kwargs.get('flags', 0))
+    pat = Pat.of(comp)
+    cls, starred = _single_class(pat)
+    if cls is None or starred or pat.has_group(list(pat.tree)):
+        raise Unsupported(f"re.split({pat.src!r}) on symbolic text")
+    nosep = z3.Star(z3.Diff(ALLCHAR, cls))
+    pieces = [[]]
+    for part in _flat_parts(subject.t):
+        if z3.is_string_value(part):
+            toks = comp.split(zstr(part))
+            pieces[-1].append(toks[0])
+            for t in toks[1:]:
+                pieces.append([t])
+        else:
+            if not ip.ctx.term_in_star(part, nosep):
+                raise Unsupported(f"re.split({pat.src!r}): a symbolic part of the text may contain a separator")
+            pieces[-1].append(SV(part))
+    return [concat_strs(ip, [p for p in ps if not (isinstance(p, str) and p == '')] or ['']) for ps in pieces]
 
 
 def install(models):
